@@ -54,7 +54,22 @@ def run(seed, tier, extra_cases=None, use_cache=True):
     t0 = time.time()
     rng = random.Random(seed)
     model = vlib.run_model("MC_Package", "MC_Package.cfg" if tier == "quick" else "MC_Package_big.cfg", workers=8, timeout=3000)
-    hists = model["replays"] if extra_cases is None else extra_cases
+    hists = list(model["replays"]) if extra_cases is None else extra_cases
+    if extra_cases is None:
+        # longer random histories (rewrite / throw interleavings beyond the exhaustive bound)
+        vs = sorted(CLASSES)
+        for i in range(600 if tier == "quick" else 6000):
+            h, loaded = [], {}
+            for _ in range(rng.choice([5, 6, 8])):
+                f = rng.choice(sorted(FILES))
+                if loaded.get(f) and rng.random() < 0.45:
+                    h.append({"op": "throw", "file": f, "version": loaded[f]})
+                else:
+                    v = rng.choice(vs)
+                    h.append({"op": "rewrite", "file": f, "version": v})
+                    if CLASSES[v] != "error":
+                        loaded[f] = v
+            hists.append(h)
     tx = texts()
     # native results for every (text, file)
     reqs, keys = [], []
